@@ -148,6 +148,23 @@ def prefix_ops(g, target):
         if g.in_progress():
             yield g.git("cherry-pick", "--abort")
         yield g.git("cherry-pick", "src", target=True)
+    elif target == "squash" and g.cfg.get("fault_family") == "git" and rng.random() < 0.5 and \
+            not g.gated("initial_outlives_discard"):
+        # (only outside the listed class initial_outlives_discard: on the pinned tree `git restore` leaves the INITIAL of
+        # the discarded squash behind, and any fault that keeps the hooks of the second squash from running lets it
+        # leak - the listed defect, not a new one)
+        # an earlier squash of an AI-written branch was looked at and thrown away (git restore --staged --worktree .);
+        # now a hand-written branch is squashed: whatever the first attempt left behind must not leak into it
+        base = g.branch()
+        yield from hist.fam_feature_branch(g, 1, path)
+        yield g.git("checkout", "-q", base)
+        yield g.git("checkout", "-q", "-b", "hand")
+        yield g.human_edit(path=path, kinds=["insert"], pos="top", pre_ckpt=True, max_block=4)
+        yield from g.commit_all()
+        yield g.git("checkout", "-q", base)
+        yield g.git("merge", "--squash", "feat")
+        yield g.git("restore", "--staged", "--worktree", ".")
+        yield g.git("merge", "--squash", "hand", target=True)
     elif target == "squash":
         base = g.branch()
         yield from hist.fam_feature_branch(g, rng.randint(1, 2), path)
